@@ -116,9 +116,44 @@ def local_renames(funcs, repo=None):
   return out
 
 
+class FlipComparisons:
+  """Equivalent variant: every two-operand comparison of one function is written
+  the other way round (a < b  ->  b > a, a == b -> b == a)."""
+  expect = 'silent'
+  rule = None
+  _MIRROR = {ast.Lt: ast.Gt, ast.Gt: ast.Lt, ast.LtE: ast.GtE, ast.GtE: ast.LtE, ast.Eq: ast.Eq, ast.NotEq: ast.NotEq}
+
+  def __init__(self, file, qualname):
+    self.file = file
+    self.qualname = qualname
+    self.name = 'flip every comparison in %s' % qualname
+
+  def overlay(self, repo=None):
+    repo = repo or REPO
+    try:
+      src = open(os.path.join(repo, self.file), encoding='utf-8').read()
+      tree = ast.parse(src)
+    except (OSError, SyntaxError):
+      return None
+    fn = _find_func(tree, self.qualname)
+    if fn is None:
+      return None
+    n = 0
+    for c in ast.walk(fn):
+      if isinstance(c, ast.Compare) and len(c.ops) == 1 and type(c.ops[0]) in self._MIRROR:
+        c.left, c.comparators[0] = c.comparators[0], c.left
+        c.ops[0] = self._MIRROR[type(c.ops[0])]()
+        n += 1
+    if n == 0:
+      return None
+    return {self.file: ast.unparse(tree)}
+
+
 def all_variants(mod):
   muts = list(getattr(mod, 'MUTANTS', []))
-  muts.extend(local_renames(getattr(mod, 'RENAME_FUNCS', [])))
+  funcs = getattr(mod, 'RENAME_FUNCS', [])
+  muts.extend(local_renames(funcs))
+  muts.extend(FlipComparisons(f, q) for (f, q) in funcs)
   return muts
 
 
